@@ -90,6 +90,10 @@ def build_source(case, rnd, tmpdir, n):
         from ..common import make_image
 
         im = make_image(random.Random(case["img_seed"]), sw, sh, mode, case.get("pattern"))
+    if case.get("keyed") and im.mode in ("P", "L", "RGB"):
+        # colour-keyed transparency (a PNG tRNS chunk, a GIF's transparent index): PIL keeps
+        # it as an ``info`` entry, not as an alpha band
+        im.info["transparency"] = im.getpixel((0, 0))
     return im
 
 
@@ -251,6 +255,15 @@ def run_case(case, env, res, tmpdir, state):
                         d_.load()
                         if d_.format != ("JPEG" if want_jpeg else "PNG"):
                             errs.append(("encoding", d_.format, want_jpeg))
+                    if exp.mode == "RGB" and not want_jpeg:
+                        # the expected picture is opaque (transparency disabled, replaced by
+                        # a colour, or absent): what a terminal decodes from the payload --
+                        # colour-keyed (tRNS) transparency included -- must be opaque too
+                        for d_ in decoded:
+                            lo = d_.convert("RGBA").getchannel("A").getextrema()[0]
+                            if lo != 255:
+                                errs.append(("payload-not-opaque", "a %s payload (transparency entry %r) decodes with alpha down to %d" % (d_.mode, d_.info.get("transparency"), lo)))
+                                break
                     if method == "lines":
                         if any(d_.size != (target[0], target[1] // H) for d_ in decoded):
                             errs.append(("strip-size", [d_.size for d_ in decoded][:3], target))
@@ -408,6 +421,23 @@ def gen_sweep(persona):
             for comp in (0, 4):
                 yield dict(kind="still", style="kitty", cell=[3, 2], size=[W, H], method="lines", src=[W * 3, H * 2], mode="RGBA", alpha="", source="pil", img_seed=W * 7 + H, pattern="noise", compress=comp, stylespec="c%d" % comp)
                 yield dict(kind="still", style="iterm2", cell=[3, 2], size=[W, H], method="lines", src=[W * 3, H * 2], mode="RGBA", alpha="", source="pil", img_seed=W * 7 + H, pattern="noise", stylespec="c%d" % comp)
+    # sources whose transparency is a colour key: what is transmitted must be opaque when
+    # transparency is disabled / replaced by a colour (and for the modes the library treats
+    # as opaque), whatever the method and the style
+    j = 0
+    for style in ("kitty", "iterm2"):
+        for method in ("whole", "lines"):
+            for mode in ("P", "L", "RGB"):
+                for alpha in ("#", "#102030", "", "##"):
+                    for source in ("pil", "file", "pilfile"):
+                        for src in ([8, 8], [40, 30]):
+                            j += 1
+                            c = dict(kind="still", style=style, cell=[4, 8], size=[3, 2], method=method, src=src, mode=mode, alpha=alpha, source=source, img_seed=9000 + j, pattern="runs", keyed=True)
+                            if source != "pil":
+                                c["file_fmt"] = "PNG"
+                            if style == "iterm2":
+                                c["rff"] = (j % 2 == 0)
+                            yield c
     for fmt in ("GIF", "WEBP", "PNG"):
         for source in ("file", "pilfile"):
             for frames in (2, 3):
